@@ -204,6 +204,8 @@ fn mutate(rng: &mut Rng, text: &str) -> (String, &'static str) {
         .collect();
     let hostile_tokens = [
         "0", "-1", "18446744073709551616", "18446744073709551615", "4294967296", "x", "1.5", "+3", "1e3", "",
+        // zero spelled in other ways (numerically the padding value, textually not "0"), and a signed one
+        "00", "000", "+0", "-0", "+1", "01",
         "９", "0x10", "2000", "1099511627776", "1152921504606846976", "9223372036854775808", "9223372036854775807",
         // long tokens with multi-byte characters at every offset around typical truncation lengths
         "123456789012345é6789", "12345678901234€56789", "1234567é", "123é5678", "éééééééééééééééééééé", "1234567890123456789012345678901€",
